@@ -181,6 +181,9 @@ func ksHexInt(s string) *big.Int {
 // KSRSAFixed returns fixed test key idx (0/1) of the given size from RSATestKeyHex with e = 65537,
 // the CRT values computed here (RFC 8017 section 3.2: dP = d mod (p-1), dQ = d mod (q-1), qInv = q^-1 mod p).
 func KSRSAFixed(bits, idx int) *KSRSA {
+	if o, ok := KSRSAOddKeyHex[bits]; ok {
+		return ksRSAFrom(bits, 65537, ksHexInt(o[0]), ksHexInt(o[1]), ksHexInt(o[2]), ksHexInt(o[3]))
+	}
 	hx := RSATestKeyHex[bits][idx]
 	return ksRSAFrom(bits, 65537, ksHexInt(hx[0]), ksHexInt(hx[1]), ksHexInt(hx[2]), ksHexInt(hx[3]))
 }
@@ -195,6 +198,19 @@ func ksRSAFrom(bits, e int, n, d, p, q *big.Int) *KSRSA {
 	k.QInv = new(big.Int).ModInverse(q, p).Bytes()
 	return k
 }
+
+// KSRSACraftedModulus returns a bits-bit odd number 2^(bits-1) + pattern (NOT a product of two primes):
+// material for PUBLIC keys of arbitrary modulus size; public-key constructors only look at the bit length.
+func KSRSACraftedModulus(bits int) []byte {
+	n := new(big.Int).Lsh(big.NewInt(1), uint(bits-1))
+	pat := new(big.Int).SetBytes(KeyBytes("crafted-modulus", (bits-2)/8))
+	n.Or(n, pat)
+	n.SetBit(n, 0, 1)
+	return n.Bytes()
+}
+
+// KSRSAPublicOnly wraps a modulus without private part.
+func KSRSAPublicOnly(bits, e int, n []byte) *KSRSA { return &KSRSA{Bits: bits, E: e, N: n} }
 
 // KSRSAWithExponent re-keys the fixed primes for another public exponent e (odd, coprime to
 // lcm(p-1,q-1)): d = e^-1 mod lcm(p-1,q-1). ok=false if e is not invertible.
